@@ -5,8 +5,9 @@
      - Subscription.send/start_sending/_event_received/_error                                 (logging/publish.py)
    Granularity: one op = one call from the application followed by a complete turn of the eventual-send queue
    (the harness drives the real code the same way).
-   JSON is abstracted: an event carries e_ok = "json.dumps(event, cls=ExtendedEncoder) succeeds"
-   (modelled-not-verified: CPython's json; the harness measures e_ok on the real encoder).
+   JSON is abstracted: an event carries e_ok = "json.dumps(event, cls=ExtendedEncoder) succeeds" (measured by the
+   harness on the real encoder) and `enc` says whether serialize_to_json_utf8 produces a line for it
+   (modelled-not-verified: CPython's json and that the last-resort record is always encodable).
    Definitions only (no proofs) so that the model can be evaluated even if a proof breaks. *)
 From Coq Require Import ZArith List Bool Lia.
 Import ListNotations.
@@ -104,11 +105,15 @@ Fixpoint insert_by_num (e : event) (l : list event) : list event :=
 (* events.sort(key=num): stable *)
 Definition sort_by_num (l : list event) : list event := fold_right insert_by_num [] l.
 
-(* the serialisation loop: events are written until the first one json cannot encode *)
+(* an event's line can be produced: the plain encoding works (e_ok) or serialize_to_json_utf8 has the total
+   three-stage form (translated shape fact serialize_total) *)
+Definition enc (e : event) : bool := serialize_total || e_ok e.
+
+(* the serialisation loop: events are written until the first one that cannot be encoded *)
 Fixpoint write_all (l : list event) : list event * bool :=
   match l with
   | [] => ([], true)
-  | e :: t => if e_ok e then let '(w, ok) := write_all t in (e :: w, ok) else ([], false)
+  | e :: t => if enc e then let '(w, ok) := write_all t in (e :: w, ok) else ([], false)
   end.
 
 Record reporter := mkRep { r_trigger : event; r_lines : list event; r_remaining : Z; r_timer : bool }.
@@ -129,7 +134,7 @@ Record decl_acc := mkAcc { a_lines : list event; a_registered : bool; a_timer : 
 Definition inc_stage_step (c : cfg) (b : bufs_t) (trig : event) (a : decl_acc) (stg : inc_stage) : decl_acc :=
   if a_failed a then a else
   match stg with
-  | IsHeader => if e_ok trig then a else mkAcc (a_lines a) (a_registered a) (a_timer a) (a_finished a) true
+  | IsHeader => if enc trig then a else mkAcc (a_lines a) (a_registered a) (a_timer a) (a_finished a) true
   | IsSubscribe => if c_trailing c then mkAcc (a_lines a) true (a_timer a) (a_finished a) false else a
   | IsSnapshot =>
     let '(w, ok) := write_all (sort_by_num (all_buffered b)) in
@@ -167,7 +172,7 @@ Definition trailing_event (i : inc_st) (ev : event) : inc_st :=
   | Some r =>
     let rem := r_remaining r - trailing_decrement in
     if cmpZ trailing_cmp rem 0
-    then mkInc (Some (mkRep (r_trigger r) (if e_ok ev then r_lines r ++ [ev] else r_lines r) rem (r_timer r)))
+    then mkInc (Some (mkRep (r_trigger r) (if enc ev then r_lines r ++ [ev] else r_lines r) rem (r_timer r)))
                (i_zombie i) (i_declared i) (i_recorded i) (i_files i) (i_junk i)
     else publish (mkRep (r_trigger r) (r_lines r) rem (r_timer r)) i
   end.
